@@ -21,4 +21,4 @@ Deliverables, all inside {wt}/OUT/ (create it):
   * patch.diff  -- output of `git -C {wt} diff` (source changes only, no test changes);
   * demo.py     -- a small self-contained program (run as  PYTHONPATH={wt}/src /venv/bin/python demo.py ) that exits 0 and prints OK on the UNCHANGED source but exits non-zero with a clear message on the changed source; it must demonstrate a violation of the property statement itself (compare against plain Python strings / dicts / explicit formulas), not merely a difference from the old behaviour;
   * notes.md    -- which clause of the property breaks, what is needed to make it manifest, which tests you ran (with their pass counts).
-Verify both directions yourself (use `git stash` / `git stash pop` in your worktree to run demo.py on the unchanged source). Leave the change applied in the worktree when you finish. Your final message: the three file paths and a five-line summary.""")
+Verify both directions yourself: to run demo.py on the unchanged source save your change with `git -C {wt} diff > {wt}/OUT/patch.diff`, undo it with `git -C {wt} apply -R {wt}/OUT/patch.diff`, run, and re-apply it with `git -C {wt} apply {wt}/OUT/patch.diff` (do NOT use `git stash`: the stash is shared between worktrees of this repository and other people work in sibling worktrees). Leave the change applied in the worktree when you finish. Your final message: the three file paths and a five-line summary.""")
